@@ -42,16 +42,11 @@ theorem status_answer_has_no_payload (c : DevConfig) (s : DevState) (pid : Nat) 
   · simp at h; exact h.2
   · cases h
 
-/-- **C07 (data stage).** Whatever the history: if the control endpoint answers an event with a DATA packet
-that carries payload bytes, the event is an IN token for endpoint 0 at the device's address, the latched
-SETUP packet is device-to-host with `wLength ≠ 0`, and the endpoint is in its data-IN stage. -/
-theorem data_in_only_after_in_setup (c : DevConfig) (h : List Stim) (e : HostEvent) (pid : Nat) (p : List Nat)
-    (hr : (core c (final c init h) e).2 = .data pid p) (hp : p ≠ []) :
-    e = .token PID_IN (final c init h).address 0 ∧
-    (final c init h).setup.isIn = true ∧ (final c init h).setup.length ≠ 0 ∧
-    (core c (final c init h) e).1.stage = .dataIn := by
-  have i := inv_reachable c h
-  generalize final c init h = s at *
+/-- The same for every state that satisfies the model's invariant (used for the model with the `start_position`
+advance by `max_packet_size`, Lemmas/C07Mps.lean). -/
+theorem data_in_only_after_in_setup_of_inv (c : DevConfig) (s : DevState) (i : Inv s) (e : HostEvent) (pid : Nat)
+    (p : List Nat) (hr : (core c s e).2 = .data pid p) (hp : p ≠ []) :
+    e = .token PID_IN s.address 0 ∧ s.setup.isIn = true ∧ s.setup.length ≠ 0 ∧ (core c s e).1.stage = .dataIn := by
   cases e with
   | token tp addr ep =>
     unfold core at hr ⊢
@@ -105,18 +100,22 @@ theorem data_in_only_after_in_setup (c : DevConfig) (h : List Stim) (e : HostEve
   | consume e' n => cases hr
   | setSignal e' v => cases hr
 
-/-- **C07 (status direction, IN).** If the control endpoint answers an IN token (with anything), it does so
-either in the data-IN stage of a device-to-host request with data, or in the status-IN stage — and the
-status-IN stage exists only when the request has NO device-to-host data stage. -/
-theorem in_token_answered_only_in_data_or_status_in (c : DevConfig) (h : List Stim) (addr ep : Nat)
-    (hr : (core c (final c init h) (.token PID_IN addr ep)).2 ≠ .none) :
-    addr = (final c init h).address ∧ ep = 0 ∧
-    (((core c (final c init h) (.token PID_IN addr ep)).1.stage = .dataIn ∧
-        (final c init h).setup.isIn = true ∧ (final c init h).setup.length ≠ 0) ∨
-     ((core c (final c init h) (.token PID_IN addr ep)).1.stage = .statusIn ∧
-        ¬ ((final c init h).setup.isIn = true ∧ (final c init h).setup.length ≠ 0))) := by
-  have i := inv_reachable c h
-  generalize final c init h = s at *
+/-- **C07 (data stage).** Whatever the history: if the control endpoint answers an event with a DATA packet
+that carries payload bytes, the event is an IN token for endpoint 0 at the device's address, the latched
+SETUP packet is device-to-host with `wLength ≠ 0`, and the endpoint is in its data-IN stage. -/
+theorem data_in_only_after_in_setup (c : DevConfig) (h : List Stim) (e : HostEvent) (pid : Nat) (p : List Nat)
+    (hr : (core c (final c init h) e).2 = .data pid p) (hp : p ≠ []) :
+    e = .token PID_IN (final c init h).address 0 ∧
+    (final c init h).setup.isIn = true ∧ (final c init h).setup.length ≠ 0 ∧
+    (core c (final c init h) e).1.stage = .dataIn :=
+  data_in_only_after_in_setup_of_inv c (final c init h) (inv_reachable c h) e pid p hr hp
+
+/-- The same for every state that satisfies the model's invariant. -/
+theorem in_token_answered_only_in_data_or_status_in_of_inv (c : DevConfig) (s : DevState) (i : Inv s) (addr ep : Nat)
+    (hr : (core c s (.token PID_IN addr ep)).2 ≠ .none) :
+    addr = s.address ∧ ep = 0 ∧
+    (((core c s (.token PID_IN addr ep)).1.stage = .dataIn ∧ s.setup.isIn = true ∧ s.setup.length ≠ 0) ∨
+     ((core c s (.token PID_IN addr ep)).1.stage = .statusIn ∧ ¬ (s.setup.isIn = true ∧ s.setup.length ≠ 0))) := by
   unfold core at hr ⊢
   simp only [] at hr ⊢
   split at hr
@@ -141,6 +140,18 @@ theorem in_token_answered_only_in_data_or_status_in (c : DevConfig) (h : List St
       · simp [PID_IN, PID_PING] at hr
     · exact absurd rfl hr
   · exact absurd rfl hr
+
+/-- **C07 (status direction, IN).** If the control endpoint answers an IN token (with anything), it does so
+either in the data-IN stage of a device-to-host request with data, or in the status-IN stage — and the
+status-IN stage exists only when the request has NO device-to-host data stage. -/
+theorem in_token_answered_only_in_data_or_status_in (c : DevConfig) (h : List Stim) (addr ep : Nat)
+    (hr : (core c (final c init h) (.token PID_IN addr ep)).2 ≠ .none) :
+    addr = (final c init h).address ∧ ep = 0 ∧
+    (((core c (final c init h) (.token PID_IN addr ep)).1.stage = .dataIn ∧
+        (final c init h).setup.isIn = true ∧ (final c init h).setup.length ≠ 0) ∨
+     ((core c (final c init h) (.token PID_IN addr ep)).1.stage = .statusIn ∧
+        ¬ ((final c init h).setup.isIn = true ∧ (final c init h).setup.length ≠ 0))) :=
+  in_token_answered_only_in_data_or_status_in_of_inv c (final c init h) (inv_reachable c h) addr ep hr
 
 /-- **C07 (status direction, OUT).** If the control endpoint answers a host data packet that is not the
 SETUP packet itself, the packet is the status-OUT stage of a device-to-host request with `wLength ≠ 0`
